@@ -561,6 +561,19 @@ Section Proofs.
   Qed.
 End Proofs.
 
+(* ---------- the GC as the code runs it: two steps that are NOT atomic together ----------
+   store.Alerts.GC deletes the resolved alerts under the store lock (gc_delete_rule) and runs the callback on the
+   deleted ones afterwards, without the lock (gc_callback_rule). Model/Inhibit.v's OGC is both at once; the
+   subscription loop can process an update in between (known finding refired-source-unindexed-after-gc, found on
+   the implementation by harness/c03/gcrace_test.go; witness in Properties/C03.v: c03_gc_callback_window_refuted). *)
+Definition gc_delete_rule (now : Z) (r : irule) : irule * list alert :=
+  (mkIR (ir_cfg r) (filter (fun kv => resolved_at (snd kv) now = false) (ir_sc r)) (ir_ix r), gc_dead now (ir_sc r)).
+Definition gc_callback_rule (dead : list alert) (r : irule) : irule :=
+  mkIR (ir_cfg r) (ir_sc r)
+       (foldr (fun a ix => ix_del (eqkey (ir_cfg r) (a_lbls a)) (a_lbls a) ix) (ir_ix r) dead).
+Lemma gc_rule_split now r : gc_callback_rule (snd (gc_delete_rule now r)) (fst (gc_delete_rule now r)) = gc_rule now r.
+Proof. reflexivity. Qed.
+
 (* ---------- historical: the single-valued index of the code BEFORE the C03 repair ----------
    Kept only to state what was wrong (Properties/C03.v: c03_single_index_refuted_a/b/c). The three witness
    histories are corpus/C03/0{1,2,3}-*.json; the harness replayed them on the unrepaired code (oracle
